@@ -14,9 +14,10 @@ VALUES = ["1", "abc", "{x}", '"x"', "{a{b}c}", '"a{b}c"', '{a"b}', "{a,b=c}", '"
           "{a} # {b}", '"a" # b', "{a\\}b}", '"a \\" b"', "{a@b}", "{}", '""', "{ a }", "2001", "{\\'e}", "ab # cd # {e}",
           '"a {b} {c{d}} e"', "{% x}", "{a\r\nb}", "{rows end with \\\\} in LaTeX}", '"q \\\\" q"', "{open \\\\{ only}",
           '"a {"} b"', "{a \\\\ b}", '" x "', '"pad "', "{\tt}", '" "',
-          "{007}", "01", '"0012"', "{٢٠٢٠}", "000", "{12}"]      # digit strings are text: leading zeros and non-ASCII digits are kept
+          "{007}", "01", '"0012"', "{٢٠٢٠}", "000", "{12}",
+          "{u\u0308ber}", '"\u212bngstr\u00f6m \u2126"', "{e\u0301}"]       # text is kept code point by code point (no normalisation)      # digit strings are text: leading zeros and non-ASCII digits are kept
 WS = ["", " ", "\n", "\r\n", "\t", "  ", " \n ", "\u00a0", "\x0c ", " \u2003"]
-GAPS = ["", "% comment", "free text = , \" } {", "a\\@b", "x\ny", "#"]
+GAPS = ["", "% comment", "free text = , \" } {", "a\\@b", "x\ny", "#", "n\u0303 \u212a"]
 ETYPES = ["article", "Book", "commentary", "stringent", "x1", "INPROCEEDINGS", "preambles", "é",
           "Straße", "ΛΌΓΟΣ", "ſtring", "ǅx"]      # lower() differs from casefold() / is not ASCII-only
 # (an entry type holding U+0130 lower-cases to i + U+0307, which is no word character: see C05 known finding; only fixed witnesses use it)
@@ -90,7 +91,8 @@ def gen_preamble(d: Doc, rnd):
 
 
 def gen_comment(d: Doc, rnd):
-    inner = rnd.choice(["c", " some text ", "a {b} c", "x = 1, y", '"q', "\n multi\n line \n", "jabref-meta: {x;}"])
+    inner = rnd.choice(["c", " some text ", "a {b} c", "x = 1, y", '"q', "\n multi\n line \n", "jabref-meta: {x;}", "", " ", "\n",
+                        "u\u0308ber \u212b \u2126", "{}"])
     start, line = d.pos, d.line()
     d.add(rnd.choice(["@comment", "@Comment ", "@COMMENT"]) + "{" + inner + "}")
     d.truth.append({"cls": "ecomment", "raw": d.text[start:d.pos], "line": line, "comment": inner.strip()})
